@@ -14,7 +14,7 @@ from harness.corr import c10 as base
 PROP = 'C11'
 PROP_FILE = 'Props/C11.v'
 THEOREMS = ['C11_parse_only_valueerror', 'C11_accessors_total', 'C11_parse_or_log_never_raises',
-            'C11_urljoin_only_valueerror', 'C11_urljoin_safe_never_raises']
+            'C11_urljoin_only_valueerror', 'C11_urljoin_safe_never_raises', 'C11_default_ports_are_the_sources']
 TRUSTED = [
     'hand-written model Model/Url.v + Model/UrlLib.v of wpull/url.py (each partial primitive has its own failure kind; try/except '
     'is a match on the kind), tied by the vm_compute correspondence of this run: exception kind or all attributes + every accessor '
@@ -36,6 +36,12 @@ ASSUMPTIONS = [
 C11_REASONS = ('accessor-', 'parse_url_or_log-raises', 'parse-raises-non-ValueError', 'to_dict-inconsistent',
                'urljoin-raises', 'urljoin_safe-raises', 'stdlib-urljoin-raises')
 IMPL = 'c11_impl.py'
+
+
+def pregen(ctx):
+    """regenerate coq/Gen/Consts.v (constant tables of the source tree the model hard-codes) from the working tree"""
+    from harness.translate import consts
+    return consts.generate(ctx.repo)
 
 
 def is_c11_reason(b):
